@@ -811,6 +811,7 @@ fn judge(case: &QCase, main: &Option<Obs>, end_tasks: &[TaskInfo], out: &mut Out
             let props: &[&str] = match e.what.as_str() {
                 "emit" => &["C10", "C20"],
                 "drop" => &["C09", "C20"],
+                "read" => &["C15", "C20"],
                 _ => &["C20"],
             };
             out.violate(props, "queue.caller-panicked", format!("{} on task {} panicked: {p}", e.what, e.task));
